@@ -3,6 +3,7 @@ from __future__ import annotations
 
 import rv.api  # noqa
 from rv.errors import PatternOwnershipError
+from rv.modules.amplifier import Amplifier
 from rv.note import Note
 from rv.pattern import Pattern
 from rv.project import Project
@@ -145,6 +146,24 @@ def bulk_edit_all_or_nothing(H, case):
                 H.check(f"cell[{l}][{t}].keeps_previous_content", H.eq((cell.note, cell.vel, cell.module, cell.ctl, cell.val), before[l][t]))
             H.check(f"cell[{l}][{t}].belongs_to_pattern", cell.pattern is pat)
     H.check("shape_kept", len(pat.data) == lines and all(len(r) == tracks for r in pat.data))
+    if attached and fail_at is None:
+        # history: the project-aware accessors of EVERY note are used, then a further (generator based,
+        # partial) edit follows - afterwards every note still answers with the real project and module
+        amp = proj.new_module(Amplifier) if not [m for m in proj.modules[1:] if m is not None] else [m for m in proj.modules[1:] if m is not None][0]
+        for row in pat.data:
+            for n in row:
+                H.getattr(n, "project")
+        supplied3 = [_supplied(H, 200 + k) for k in range((lines * tracks + 1) // 2)]
+        exc4, res4 = _edit(H, pat, "gen", None, None, supplied3, {}, parity=1)
+        H.check("third_edit_succeeds", exc4 is None and res4 is pat)
+        late = proj.new_module(Amplifier)
+        for l in range(lines):
+            for t in range(tracks):
+                n = pat.data[l][t]
+                H.check(f"after_accessor_use_and_edit.cell[{l}][{t}].project_is_the_real_project", n.pattern is pat and H.getattr(n, "project") is proj)
+        n0 = pat.data[0][0]
+        n0.module = late.index + 1
+        H.check("module_attached_later_is_visible_through_old_notes", H.getattr(n0, "mod") is late)
     cell = pat.data[0][0]
     if attached:
         H.check("project_aware_accessor_works", H.getattr(cell, "project") is proj)
